@@ -133,7 +133,7 @@ def isReferenceActivated (f : FUid) : M Bool := do
     if x.activated > 0 then
       match ← getInstX? p with
       | some px => return x.flowId ≠ px.flowId
-      | none => pyRaise "KeyError" p
+      | none => pyRaise "KeyError" s!"{p} (model line 136)"
     else return false
 
 def isChildActivated (f : FUid) : M Bool := do
@@ -160,7 +160,7 @@ def restartActivated (f : FUid) (scores : List Score) (deactivate : Bool) : M Un
       | some p =>
         match ← getInstX? p with
         | some px => pure (if px.flowId = x.flowId then p else f)
-        | none => pyRaise "KeyError" p
+        | none => pyRaise "KeyError" s!"{p} (model line 163)"
       | none => pure f
     pushLeftEvent { ev := { e with args := setArg "source_flow_instance_uid" (.str src) e.args }, scores := scores }
     modInstX f fun x => { x with newInstanceStarted := true }
@@ -174,7 +174,7 @@ def abortFlow : Nat → FUid → List Score → Bool → M Unit
       if x.activated = 0 then
         for c in x.childFlowUids do
           match ← getInstX? c with
-          | none => pyRaise "KeyError" c
+          | none => pyRaise "KeyError" s!"{c} (model line 177)"
           | some cx =>
             if cx.flowId = x.flowId then
               abortFlow fuel c scores true
@@ -216,7 +216,7 @@ def finishFlow (fuel : Nat) (f : FUid) (scores : List Score) (deactivate : Bool)
     if x.activated = 0 then
       for c in x.childFlowUids do
         match ← getInstX? c with
-        | none => pyRaise "KeyError" c
+        | none => pyRaise "KeyError" s!"{c} (model line 219)"
         | some cx =>
           if cx.flowId = x.flowId then
             abortFlow fuel c scores true
@@ -262,7 +262,7 @@ def headScores (k : Key) : M (List Score) := do return (← getHeadX k).scores
 def labelPos (cfg : FlowCfg) (l : String) : M Nat :=
   match cfg.label l with
   | some n => pure n
-  | none => pyRaise "KeyError" l
+  | none => pyRaise "KeyError" s!"{l} (model line 265)"
 
 /-- `FlowHead.get_child_head_uids(state)` (recursive, with fuel) -/
 def childHeadUids : Nat → FUid → HUid → M (List HUid)
@@ -332,7 +332,7 @@ def slideStep (fuel : Nat) (f : FUid) (h : HUid) : M (Bool × List Key) := do
         let x ← getInstX f
         match OMap.lookup sc x.scopes with
         | some _ => modInstX f fun x => { x with scopes := OMap.modify sc (fun p => (p.1, p.2 ++ [u])) x.scopes }
-        | none => pyRaise "KeyError" sc
+        | none => pyRaise "KeyError" s!"{sc} (model line 335)"
       match spec.ref with
       | some r => modInstX f fun x => { x with context := setArg r (.ref "action" u) x.context }
       | none => pyRaise "AssertionError" "_new_action_instance without reference"
@@ -384,25 +384,25 @@ def slideStep (fuel : Nat) (f : FUid) (h : HUid) : M (Bool × List Key) := do
         let x ← getInstX f
         let parentUid ← match OMap.lookup forkUid x.forkUids with
           | some p => pure p
-          | none => pyRaise "KeyError" forkUid
+          | none => pyRaise "KeyError" s!"{forkUid} (model line 387)"
         let pk : Key := (f, parentUid)
-        if (← getHead? pk).isNone then pyRaise "KeyError" parentUid
+        if (← getHead? pk).isNone then pyRaise "KeyError" s!"{parentUid} (model line 389)"
         let mergingUids ← childHeadUids fuel f parentUid
         -- merge the scope uids of the direct children
         let mut scopeUids : List String := []
         for c in (← getHeadX pk).childHeadUids do
-          if (← getHead? (f, c)).isNone then pyRaise "KeyError" c
+          if (← getHead? (f, c)).isNone then pyRaise "KeyError" s!"{c} (model line 394)"
           for sc in (← getHeadX (f, c)).scopeUids do
             if !scopeUids.contains sc then scopeUids := scopeUids ++ [sc]
         -- (the "wait for other merges" loop of the Python code only breaks out of itself)
         for u in mergingUids do
           if u ≠ h then
-            if (← getHead? (f, u)).isNone then pyRaise "KeyError" u
+            if (← getHead? (f, u)).isNone then pyRaise "KeyError" s!"{u} (model line 400)"
         let mut mergingHeads : List Key := []
         for u in mergingUids do
           match ← getHead? (f, u) with
           | some oh => if oh.status = .merging then mergingHeads := mergingHeads ++ [(f, u)]
-          | none => pyRaise "KeyError" u
+          | none => pyRaise "KeyError" s!"{u} (model line 405)"
         let mut picked := k
         if mergingHeads.length > 1 then
           let r ← getRest
@@ -420,12 +420,12 @@ def slideStep (fuel : Nat) (f : FUid) (h : HUid) : M (Bool × List Key) := do
           modHeadX pk fun y => { y with scopeUids := scopeUids, scores := myx.scores, catchLabels := myx.catchLabels, childHeadUids := [] }
           newHeads := newHeads ++ [pk]
           for u in mergingUids do
-            if (← getHead? (f, u)).isNone then pyRaise "KeyError" u
+            if (← getHead? (f, u)).isNone then pyRaise "KeyError" s!"{u} (model line 423)"
             setHeadStatus (f, u) .inactive
             applyOp (.delHead f u)
             modifyRest fun r => { r with hx := OMap.erase (f, u) r.hx }
             modInstX f fun x => { x with forkUids := OMap.erase u x.forkUids }
-          if (OMap.lookup forkUid (← getInstX f).forkUids).isNone then pyRaise "KeyError" forkUid
+          if (OMap.lookup forkUid (← getInstX f).forkUids).isNone then pyRaise "KeyError" s!"{forkUid} (model line 428)"
           modInstX f fun x => { x with forkUids := OMap.erase forkUid x.forkUids }
       else stop := true
     | .waitHeads num =>
@@ -526,7 +526,7 @@ def advanceHeadFront : Nat → List Key → M (List Key)
     let mut actionable : List Key := []
     for k in heads do
       let f := k.1
-      let some i ← getInst? f | pyRaise "KeyError" f
+      let some i ← getInst? f | pyRaise "KeyError" s!"{f} (model line 529)"
       let cfg ← cfgOfInst f
       let hd ← match ← getHead? k with
         | some hd => pure hd
@@ -610,6 +610,7 @@ def advanceHeadFront : Nat → List Key → M (List Key)
         | some x => if x.pos ≥ cfg.elements.size then pyRaise "IndexError" "list index out of range"
         | none => unsupported "exception handler reads a detached head"
         pushEvent (colangErrorEvent c m)
+        modifyRest fun r => { r with caught := r.caught ++ [s!"{c}: {m}"] }
         flowFinished := false
         flowAborted := true
       | none => pure ()
